@@ -130,11 +130,12 @@ CALENDAR = {"sec": (0, 59), "min": (0, 59), "hour": (0, 23), "mday": (1, 31), "m
 
 
 class Interp:
-    def __init__(self, ctx: Ctx, f: FuncInfo, depth: int = 0, bind: "dict[str, Any] | None" = None) -> None:
+    def __init__(self, ctx: Ctx, f: FuncInfo, depth: int = 0, bind: "dict[str, Any] | None" = None, preset: "dict[str, Shape] | None" = None) -> None:
         self.ctx = ctx
         self.f = f
         self.depth = depth
         self.bind = dict(bind or {})  # parameters fixed to constants by the call site (branches on them are folded)
+        self.preset = dict(preset or {})  # shapes assumed for free parameters (stated by the calling rule)
         self.returns: list[Shape] = []
         self.ranges: dict[str, tuple[float, float]] = {}  # numeric ranges established by `if <out of range>: raise` guards
         self.calls: list[tuple[ast.Call, dict[str, Shape]]] = []  # from_attrs call sites with the env at that point
@@ -303,6 +304,8 @@ class Interp:
             return Lit(e.value) if isinstance(e.value, str) else Unknown(f"non-str constant {e.value!r}")
         if isinstance(e, ast.Name) and e.id in env:
             return env[e.id]
+        if isinstance(e, ast.Name) and e.id in self.preset:
+            return self.preset[e.id]
         try:
             v = self.ctx.consts.eval_in(self.f, e)
         except Exception:
